@@ -120,7 +120,7 @@ def lines(ctx: fw.Ctx, out: fw.Outcome):
         t = rng.choice([0, rng.randint(0, 10**4), rng.randint(0, 10**9), rng.randint(0, 10**30)])
         tick_s = gen.num(rng, prof, t)
         if kind == "bpm":
-            n = rng.choice([rng.randint(1, 10**7), rng.choice(gen.C08_PAST), rng.randint(1, 10**20)])
+            n = rng.choice([rng.randint(1, 10**7), rng.choice(gen.C08_PAST), rng.randint(1, 10**20), rng.randint(10**28, 10**40), 10000000000000001979711487999])
             ns = gen.num(rng, prof, n)
             line = f"{gen.pad(rng, prof)}{tick_s} = B {ns}{gen.pad(rng, prof, '')}"
             truth = f"bpm {t} {impl.cps(ns)}"
@@ -182,9 +182,11 @@ def charts(ctx: fw.Ctx, out: fw.Outcome):
             t += rng.randint(1, 1000)
             src.tss.append((t, rng.randint(0, 64), rng.choice([None, rng.randint(0, 16)])))
         src.tss.sort(key=lambda x: x[0])
-        src.anchors = sorted((rng.randint(0, 5000), rng.choice([0, rng.randint(0, 10**9), rng.randint(2**53, 2**56), rng.randint(10**16, 8 * 10**19),
-                                                                 2**53 + 1, 8670214808394963]))
-                             for _ in range(rng.randint(0, 3)))  # microsecond values beyond what a double holds exactly
+        src.anchors = [(rng.choice([0, 5, 768, rng.randint(0, 5000)]), rng.choice([0, rng.randint(0, 10**9), rng.randint(2**53, 2**56), rng.randint(10**16, 8 * 10**19),
+                                                                                    2**53 + 1, 8670214808394963]))
+                       for _ in range(rng.randint(0, 4))]  # microsecond values beyond what a double holds exactly
+        # anchors are reported in file order: several on one tick keep the order they were written in, whatever their values
+        src.anchors.sort(key=lambda a_: a_[0])
         cases.append((src, gen.render(src, rng, prof)))
     a, b = common.run_charts([(R.text, None) for _, R in cases])
     for (src, R), x, y in zip(cases, a, b):
